@@ -31,9 +31,24 @@ IsDigit(c) == c >= 48 /\ c <= 57
 Upper(t) == [i \in DOMAIN t |-> IF t[i] >= 97 /\ t[i] <= 122 THEN t[i] - 32 ELSE t[i]]
 Lower(t) == [i \in DOMAIN t |-> IF t[i] >= 65 /\ t[i] <= 90 THEN t[i] + 32 ELSE t[i]]
 
-TokStarts(b) == SetToSortSeq({i \in 1 .. Len(b) : ~IsWS(b[i]) /\ (i = 1 \/ IsWS(b[i - 1]))}, LAMBDA x, y : x < y)
-TokEnds(b)   == SetToSortSeq({i \in 1 .. Len(b) : ~IsWS(b[i]) /\ (i = Len(b) \/ IsWS(b[i + 1]))}, LAMBDA x, y : x < y)
-AsciiTokens(b) == LET S == TokStarts(b)  E == TokEnds(b) IN [k \in DOMAIN S |-> SubSeq(b, S[k], E[k])]
+(* token boundaries as increasing sequences of byte offsets.  Computed block by block with SelectSeq  *)
+(* over an index sequence: linear in the file and independent of TLC's bound on the size of a set     *)
+(* (a file of more than 10^6 tokens has to be handled in the thorough tier)                           *)
+TokBlock == 400000
+IsTokStart(b, i) == ~IsWS(b[i]) /\ (i = 1 \/ IsWS(b[i - 1]))
+IsTokEnd(b, i)   == ~IsWS(b[i]) /\ (i = Len(b) \/ IsWS(b[i + 1]))
+RECURSIVE TokScan(_, _, _)
+TokScan(b, lo, ends) ==
+  IF lo > Len(b) THEN <<>>
+  ELSE LET hi == Min2(Len(b), lo + TokBlock - 1) IN
+       SelectSeq([i \in 1 .. hi - lo + 1 |-> lo + i - 1], LAMBDA i : IF ends THEN IsTokEnd(b, i) ELSE IsTokStart(b, i))
+       \o TokScan(b, hi + 1, ends)
+TokStarts(b) == TokScan(b, 1, FALSE)
+TokEnds(b)   == TokScan(b, 1, TRUE)
+(* smallest index in lo .. hi whose byte is c, 0 if none (short windows only) *)
+FirstByte(b, lo, hi, c) ==
+  LET w == {i \in lo .. Min2(hi, Len(b)) : b[i] = c} IN IF w = {} THEN 0 ELSE CHOOSE i \in w : \A x \in w : i <= x
+AsciiTokens(b) == LET S == TokStarts(b)  E == TokEnds(b) IN [k \in DOMAIN S |-> SubSeq(b, S[k], E[k])]     \* (files of < 10^6 tokens)
 
 (* numbers: [neg, mag]; mag = Huge: more than 9 digits; mag = -2: not an integer token *)
 NotNum == [neg |-> FALSE, mag |-> -2]
@@ -108,7 +123,11 @@ AsciiParse(b) ==
       T(k) == SubSeq(b, S[k], E[k])
       N(k) == TokNum(T(k))
       (* first token starting at or after byte offset o *)
-      TokFrom(o) == Cardinality({k \in 1 .. NT : S[k] < o}) + 1
+      RECURSIVE TokSearch(_, _, _)      \* number of tokens that start before offset o, by bisection on lo .. hi
+      TokSearch(o, lo, hi) ==
+        IF lo > hi THEN lo - 1
+        ELSE LET mid == (lo + hi) \div 2 IN IF S[mid] < o THEN TokSearch(o, mid + 1, hi) ELSE TokSearch(o, lo, mid - 1)
+      TokFrom(o) == TokSearch(o, 1, NT) + 1
       (* n lists "d x_1 .. x_d" from token k: [ok, k, items] *)
       (* one list per step, in nested blocks (shallow recursion, see RunChunks in OVMB.tla) *)
       ListStep(r) ==
@@ -138,9 +157,9 @@ AsciiParse(b) ==
         IF n = 0 THEN [ok |-> TRUE, k |-> k, vals |-> <<>>]
         ELSE IF k > NT THEN [ok |-> FALSE, k |-> k, vals |-> <<>>]
         ELSE LET s == S[k]
-                 colon == {i \in s .. Len(b) : b[i] = 58}
-             IN IF colon = {} THEN [ok |-> FALSE, k |-> k, vals |-> <<>>]
-                ELSE LET c == CHOOSE i \in colon : \A x \in colon : i <= x
+                 c0 == FirstByte(b, s, s + 12, 58)       \* "<len>:" with at most 9 digits
+             IN IF c0 = 0 THEN [ok |-> FALSE, k |-> k, vals |-> <<>>]
+                ELSE LET c == c0
                          ln == TokNum(SubSeq(b, s, c - 1))
                      IN IF ln.mag < 0 \/ ln.neg \/ c + ln.mag > Len(b) THEN [ok |-> FALSE, k |-> k, vals |-> <<>>]
                         ELSE LET r == Strings(TokFrom(c + 1 + ln.mag), n - 1) IN
@@ -180,7 +199,9 @@ AsciiParse(b) ==
         ELSE IF k + 2 > NT THEN [ok |-> FALSE, why |-> "TruncatedPropertyHeader", props |-> <<>>]
         ELSE LET kind == PropKw(T(k))
                  ty   == ATypeIndex(Lower(T(k + 1)))
-                 eol  == LET nl == {i \in E[k + 1] .. Len(b) : b[i] = 10} IN IF nl = {} THEN Len(b) + 1 ELSE CHOOSE i \in nl : \A x \in nl : i <= x
+                 eol  == LET near == FirstByte(b, E[k + 1], E[k + 1] + 1024, 10)      \* end of the header line
+                             far  == IF near # 0 THEN near ELSE FirstByte(b, E[k + 1], Len(b), 10)
+                         IN IF far = 0 THEN Len(b) + 1 ELSE far
                  qs   == {i \in E[k + 1] + 1 .. eol - 1 : b[i] = 34}
              IN IF kind = "" THEN [ok |-> FALSE, why |-> "PropertyKeyword", props |-> <<>>]
                 ELSE IF ty = 0 THEN [ok |-> FALSE, why |-> "PropertyTypeName", props |-> <<>>]
@@ -271,7 +292,7 @@ AsciiMeshEq(m1, m2, exact) == AsciiMeshDiff(m1, m2, exact) = ""
 (* two files carry the same content: token-identical up to the order of the property sections *)
 (* (the writer enumerates properties in an unspecified order)                                     *)
 AsciiSameFile(b1, b2) ==
-  AsciiTokens(b1) = AsciiTokens(b2)
+  b1 = b2
   \/ LET A1 == AsciiParse(b1)  A2 == AsciiParse(b2) IN
      /\ A1.ok /\ A2.ok
      /\ [A1 EXCEPT !.props = <<>>] = [A2 EXCEPT !.props = <<>>]
